@@ -50,7 +50,8 @@ def op_strategies(typed=False, explicit_ids=True, fresh=False, valid_before_only
         "prepend_child": st.tuples(st.just("prepend_child"), REF, LABEL, O).map(list),
         "prepend_sibling": st.tuples(st.just("prepend_sibling"), REF, LABEL, O).map(list),
         "append_sibling": st.tuples(st.just("append_sibling"), REF, LABEL, O).map(list),
-        "add_node": st.tuples(st.just("add_node"), PREF, st.sampled_from([0, 0, 1]), REF, tri, B).map(list),
+        "add_node": (st.tuples(st.just("add_node"), PREF, st.sampled_from([0, 0, 1]), REF, tri, B, st.one_of(st.none(), KINDS)).map(list) if typed
+                     else st.tuples(st.just("add_node"), PREF, st.sampled_from([0, 0, 1]), REF, tri, B).map(list)),
         "copy_to": st.tuples(st.just("copy_to"), REF, PREF, st.sampled_from([True, True, False]), B, st.booleans()).map(list),
         "add_tree": st.tuples(st.just("add_tree"), PREF, B, tri).map(list),
         "move": st.tuples(st.just("move"), REF, st.one_of(st.integers(-1, 40), st.sampled_from([-2])), B).map(list),
